@@ -297,10 +297,16 @@ def dict_part(ctx, cfg):
     delete_in(d, q)
     left = dict(dict_to_paths((), d))
     exp = {p for p in vals if p[:len(q)] != q}
+    # exactly that entry goes: every dictionary on the way down is still
+    # there (also when it is left empty)
+    parents = [isinstance(get_in(d, q[:i], 'GONE'), dict)
+               for i in range(len(q))
+               if isinstance(shape_at(shape, q[:i]), dict)]
     ctx.claim('C17.delete', AND(
         [get_in(d, q, 'GONE') == 'GONE', {p for p in left if p in vals} == exp]
+        + parents
         + [EQ(left[p], vals[p]) for p in exp if p in left]),
-        sig='delete', info=info)
+        sig='delete', info=lambda: dict(after=repr(d), **info()))
     # ---- update_in: only the addressed subtree differs
     d = copy.deepcopy(d0)
     u = update_in(d, q, lambda cur: v)
